@@ -1,0 +1,46 @@
+//go:build verif
+
+package dns
+
+import (
+	"math/big"
+	"strings"
+)
+
+// Add-only exports of DNSSEC key-encoding internals for the verification
+// harness (property C17). Compiled only with -tags verif.
+
+// VerifPublicKeyRSA returns the exponent and modulus publicKeyRSA decodes.
+func VerifPublicKeyRSA(k *DNSKEY) (e int, n []byte, ok bool) {
+	p := k.publicKeyRSA()
+	if p == nil {
+		return 0, nil, false
+	}
+	return p.E, p.N.Bytes(), true
+}
+
+// VerifPublicKeyECDSA returns the coordinates publicKeyECDSA decodes.
+func VerifPublicKeyECDSA(k *DNSKEY) (x, y []byte, ok bool) {
+	p := k.publicKeyECDSA()
+	if p == nil {
+		return nil, nil, false
+	}
+	return p.X.Bytes(), p.Y.Bytes(), true
+}
+
+// VerifPublicKeyED25519 returns the key octets publicKeyED25519 accepts.
+func VerifPublicKeyED25519(k *DNSKEY) ([]byte, bool) {
+	p := k.publicKeyED25519()
+	return []byte(p), p != nil
+}
+
+func VerifSetPublicKeyRSA(k *DNSKEY, e int, n *big.Int) bool { return k.setPublicKeyRSA(e, n) }
+func VerifSetPublicKeyECDSA(k *DNSKEY, x, y *big.Int) bool  { return k.setPublicKeyECDSA(x, y) }
+func VerifExponentToBuf(e int) []byte                        { return exponentToBuf(e) }
+func VerifCurveToBuf(x, y *big.Int, intlen int) []byte       { return curveToBuf(x, y, intlen) }
+func VerifIntToBytes(i *big.Int, length int) []byte          { return intToBytes(i, length) }
+
+// VerifParseKey runs the private-key file lexer and parser.
+func VerifParseKey(s string) (map[string]string, error) {
+	return parseKey(strings.NewReader(s), "")
+}
